@@ -95,6 +95,9 @@ type verdict struct {
 	accepted bool
 	panicked any
 	cookies  [][]byte // response: cookies stored in the client's pool
+	uid      []byte   // the unique identifier the code decoded (what a server echoes / a client compares)
+	cookie   []byte   // request: the cookie the server would open
+	nplace   int      // request: number of cookie + placeholder fields the server would answer
 }
 
 func realRequest(b, key []byte) (v verdict) {
@@ -107,13 +110,14 @@ func realRequest(b, key []byte) (v verdict) {
 	if err := nts.DecodePacket(&p, b); err != nil {
 		return
 	}
-	if _, err := p.FirstCookie(); err != nil {
+	ck, err := p.FirstCookie()
+	if err != nil {
 		return
 	}
 	if err := nts.ProcessRequest(b, key, &p); err != nil {
 		return
 	}
-	return verdict{accepted: true}
+	return verdict{accepted: true, uid: p.UniqueID.ID, cookie: ck, nplace: len(p.Cookies) + len(p.CookiePlaceholders)}
 }
 
 func realResponse(b, key, reqID []byte) (v verdict) {
@@ -131,6 +135,7 @@ func realResponse(b, key, reqID []byte) (v verdict) {
 		return
 	}
 	v.accepted = true
+	v.uid = p.UniqueID.ID
 	// read the pool back through the public API (no key exchange happens while cookies are stored)
 	func() {
 		defer func() { _ = recover() }()
@@ -217,6 +222,18 @@ func build(c pktCase) (b, key, otherKey, reqID []byte, cookies [][]byte) {
 }
 
 type sweepStats struct{ flips, fieldEdits, keyEdits int }
+
+func zeroPaddedEq(got, want []byte) bool {
+	if len(got) < len(want) || !bytes.Equal(got[:len(want)], want) {
+		return false
+	}
+	for _, x := range got[len(want):] {
+		if x != 0 {
+			return false
+		}
+	}
+	return true
+}
 
 func sameCookies(got, want [][]byte) bool {
 	if len(got) != len(want) {
@@ -343,6 +360,60 @@ func checkPacket(t failer, c pktCase, fullSweep bool) (st sweepStats) {
 			st.fieldEdits++
 		}
 		st.fieldEdits++
+	}
+	// fields appended behind the authenticator are not authenticated: they must not change what is accepted
+	{
+		nfields := 0
+		fsOwn := 0
+		for pos := 48; pos+4 <= l.authPos; pos += int(binary.BigEndian.Uint16(b[pos+2:])) {
+			if t := binary.BigEndian.Uint16(b[pos:]); t == 0x204 || t == 0x304 {
+				nfields++
+			}
+			fsOwn++
+		}
+		otherID := bytesOf(c.Seed+4242, 32)
+		mk := func(typ uint16, body []byte) []byte {
+			f := make([]byte, 4+pad4(len(body)))
+			binary.BigEndian.PutUint16(f, typ)
+			binary.BigEndian.PutUint16(f[2:], uint16(len(f)))
+			copy(f[4:], body)
+			return f
+		}
+		authField := b[l.authPos:]
+		trailers := map[string][]byte{
+			"a unique identifier field":  mk(0x104, otherID),
+			"a cookie field":             mk(0x204, bytesOf(c.Seed+4343, 124)),
+			"a cookie placeholder field": mk(0x304, make([]byte, 124)),
+			"an unknown field":           mk(0x7f00, bytesOf(c.Seed+4444, 40)),
+			"a copy of the authenticator": bytes.Clone(authField),
+			"identifier, cookie and placeholder fields": append(append(mk(0x104, otherID), mk(0x204, bytesOf(c.Seed+4545, 124))...), mk(0x304, make([]byte, 124))...),
+		}
+		for what, tr := range trailers {
+			m2 := append(bytes.Clone(b), tr...)
+			v := real(m2, key, reqID)
+			st.fieldEdits++
+			if v.panicked != nil {
+				t.Fatalf("%s with %s appended behind the authenticator: panic %v", c.Kind, what, v.panicked)
+			}
+			if v.accepted {
+				if !zeroPaddedEq(v.uid, l.uid) {
+					t.Fatalf("%s with %s appended behind the authenticator is accepted with unique identifier %s, the authenticated one is %s", c.Kind, what, hx(v.uid), hx(l.uid))
+				}
+				if c.Kind == "response" && !sameCookies(v.cookies, cookies) {
+					t.Fatalf("response with %s appended behind the authenticator delivered %d cookies to the pool, %d were sealed", what, len(v.cookies), len(cookies))
+				}
+				if c.Kind == "request" && (!zeroPaddedEq(v.cookie, cookies[0]) || v.nplace != nfields) {
+					t.Fatalf("request with %s appended behind the authenticator: the server would open another cookie / answer %d fields instead of the %d authenticated ones", what, v.nplace, nfields)
+				}
+			}
+			if c.Kind == "response" {
+				// replay: this (genuine, earlier) response must not pass as the answer to another request
+				if v2 := real(m2, key, otherID); v2.accepted || v2.panicked != nil {
+					t.Fatalf("a genuine response to one request, with %s appended behind the authenticator, is accepted as the response to a different request", what)
+				}
+				st.fieldEdits++
+			}
+		}
 	}
 	// truncation where the cut-off bytes are zero: re-seal with other nonces until the tag ends in a zero byte
 	if c.Nonce == 0 {
